@@ -14,7 +14,10 @@ fn qgeneric<S: Sc>(qs: &[&RQ<S>]) -> bool {
 
 /// ring laws of arbitrary quaternions
 fn algebra<S: Sc>(d: &mut Draw) -> Outcome {
-    let (p, q, r) = (gquat::<S>(d), gquat::<S>(d), gquat::<S>(d));
+    let p = gquat::<S>(d);
+    // now and then repeated factors (p * p, (p*p)*r)
+    let q = if d.chance(1, 8) { p } else { gquat::<S>(d) };
+    let r = if d.chance(1, 16) { p } else { gquat::<S>(d) };
     let (a, k) = (S::gen(d), S::gen_nz(d));
     d.note("p", &p);
     d.note("q", &q);
@@ -106,6 +109,56 @@ fn rotation<S: Sc>(d: &mut Draw) -> Outcome {
     pass(if nt { "generic" } else { "degenerate" }, nt)
 }
 
+
+/// f64: product and rotation against the reference with a rounding-only tolerance, on regimes the
+/// exact tiers cannot represent: quaternions within rounding of +-1, tiny vector parts, wide
+/// magnitudes, repeated factors
+fn product_f64(d: &mut Draw) -> Outcome {
+    let class = d.int(0, 3);
+    let gen = |d: &mut Draw, class: i64| -> [f64; 4] {
+        match class {
+            0 => [d.f64_slog(1e-3, 1e3), d.f64_slog(1e-3, 1e3), d.f64_slog(1e-3, 1e3), d.f64_slog(1e-3, 1e3)],
+            1 => {
+                // unit, rotation by a tiny angle, either sign
+                let th = d.f64_log(1e-14, 1e-2);
+                let a = f_unit3(d);
+                let sg = if d.bool() { 1.0 } else { -1.0 };
+                fnormalize4(&[sg * (th / 2.0).cos(), sg * (th / 2.0).sin() * a[0], sg * (th / 2.0).sin() * a[1], sg * (th / 2.0).sin() * a[2]])
+            }
+            2 => [d.f64_slog(1e-100, 1e100), d.f64_slog(1e-100, 1e100), d.f64_slog(1e-100, 1e100), d.f64_slog(1e-100, 1e100)],
+            _ => f_unit_quat(d),
+        }
+    };
+    let p = gen(d, class);
+    let cq_ = d.int(0, 3);
+    let q = if d.chance(1, 5) { p } else { gen(d, cq_) };
+    let v = f_vec3(d, -10.0, 10.0);
+    d.note("p [w,x,y,z]", &p);
+    d.note("q [w,x,y,z]", &q);
+    d.note("v", &v);
+    let (cp, cq) = (mk_q(&p), mk_q(&q));
+    let want = qmul(&p, &q);
+    let got = rq(&(cp * cq));
+    // each component is a sum of four products
+    let ap: [f64; 4] = [p[0].abs(), p[1].abs(), p[2].abs(), p[3].abs()];
+    let aq: [f64; 4] = [q[0].abs(), q[1].abs(), q[2].abs(), q[3].abs()];
+    let bound = (ap[0] + ap[1] + ap[2] + ap[3]) * (aq[0] + aq[1] + aq[2] + aq[3]);
+    for i in 0..4 {
+        ensure!((got[i] - want[i]).abs() <= 8.0 * f64::EPSILON * bound + 1e-300, "product-f64", "component {} of p*q is {:e}, reference {:e}", i, got[i], want[i]);
+    }
+    // q * v against the documented formula evaluated by the reference
+    let qv = [q[1], q[2], q[3]];
+    let inner = add3(&cross3(&qv, &v), &scale3(&v, q[0]));
+    let wantv = add3(&v, &scale3(&cross3(&qv, &inner), 2.0));
+    let gotv = v3(cq * Vector3::from(v));
+    let n2 = qnorm2(&q);
+    let vb = (1.0 + 4.0 * n2) * (v[0].abs() + v[1].abs() + v[2].abs());
+    for i in 0..3 {
+        ensure!((gotv[i] - wantv[i]).abs() <= 16.0 * f64::EPSILON * vb + 1e-300, "q*v-f64", "component {} of q*v is {:e}, reference {:e} (q = {:?})", i, gotv[i], wantv[i], q);
+    }
+    pass(["generic", "near-one", "wide-magnitudes", "unit"][class as usize], true)
+}
+
 const RULE: &str = "all four components of every quaternion non-zero; vector components non-zero and pairwise distinct";
 
 pub fn property() -> Property {
@@ -119,6 +172,7 @@ pub fn property() -> Property {
     add!("algebra-Fp", "Fp", algebra::<Fp>, 5000, 400_000, 64, &[("generic", 200)]);
     add!("rotation-Q", "Q", rotation::<Q>, 5000, 400_000, 64, &[("generic", 100)]);
     add!("rotation-Fp", "Fp", rotation::<Fp>, 5000, 400_000, 64, &[("generic", 200)]);
+    add!("product_rotation-f64", "f64", product_f64, 8000, 500_000, 96, &[("generic", 100), ("near-one", 100), ("wide-magnitudes", 100), ("unit", 100)]);
     Property {
         id: "C04",
         title: "Quaternions obey Hamilton's algebra and unit quaternions act as rotations",
